@@ -17,11 +17,30 @@ def parse_fn(extra_ens=(), loops=None, **kw):
 
 SPECS = {
     # ---- trusted leaves (bodies not verified; total functions without preconditions) ----
-    'Op::from': dict(external_body=True),
+    # the operator a spelling denotes: uninterpreted here (the alias table is proved by K: C11.alias.op.*)
+    'Op::from': dict(external_body=True, ret='r', ensures=['r == spec_op_from(text@)']),
     'ArithmeticOp::from': dict(external_body=True),
-    'OutputFormat::from': dict(external_body=True),
+    # the format a name denotes: uninterpreted here (the name table is proved by K: C11.alias.format.*)
+    'OutputFormat::from': dict(external_body=True, ret='r', ensures=['r == spec_format_from(s@)']),
     'Field::is_boolean_field': dict(external_body=True),
     'Function::is_boolean_function': dict(external_body=True),
+    # classification tables: trusted here as uninterpreted predicates (the numeric / date tables of Field are proved over the whole enum by K: C05.numeric.classification)
+    'Field::is_numeric_field': dict(external_body=True, ret='r', ensures=['r == spec_numeric_field(*self)']),
+    'Field::is_datetime_field': dict(external_body=True, ret='r', ensures=['r == spec_datetime_field(*self)']),
+    'Function::is_numeric_function': dict(external_body=True, ret='r', ensures=['r == spec_numeric_fn(*self)']),
+    'Function::is_aggregate_function': dict(external_body=True, ret='r', ensures=['r == spec_agg_fn(*self)']),
+    # C07: an aggregate anywhere in a column expression (operands, function argument, further arguments) makes the query an aggregate query
+    'Expr::has_aggregate_function': dict(ret='r', ensures=['/*C07.aggregate.detect*/ r == spec_has_agg(*self)'], decreases='*self',
+        loops={0: dict(iter='it', invariant=['forall|j: int| 0 <= j < it.index@ ==> !spec_has_agg(#[trigger] args@[j])', 'self.args == Some(*args)'])},
+        proofs={r'if\s+arg\.has_aggregate_function\(\)': 'proof { broadcast use vstd::std_specs::vec::axiom_vec_index_decreases; '
+                'assert(*arg == args@[it.index@ as int]); assert(decreases_to!(*args => args@[it.index@ as int])); '
+                'assert(decreases_to!(*self => self.args)); assert(decreases_to!(self.args => self.args->Some_0)); assert(decreases_to!(*self => *arg)); '
+                'if spec_has_agg(self.args->Some_0@[it.index@ as int]) { assert(spec_has_agg(*self)); } }'}),
+    # C05: a key expression is numeric when a numeric column or function occurs in it - on either side of an operator
+    'Expr::contains_numeric': dict(ret='r', ensures=['/*C05.key.numeric.detect*/ r == spec_contains_numeric(*self)']),
+    'Expr::contains_numeric_field': dict(ret='r', ensures=['/*C05.key.numeric.detect*/ r == spec_contains_numeric(*expr)'], decreases='*expr'),
+    'Expr::contains_datetime': dict(ret='r', ensures=['r == spec_contains_datetime(*self)']),
+    'Expr::contains_datetime_field': dict(ret='r', ensures=['r == spec_contains_datetime(*expr)'], decreases='*expr'),
     '__field_from_str': '    #[verifier::external_body]\n    pub fn from_str(s: &str) -> Result<Field, String> { unimplemented!() }\n',
     '__function_from_str': '    #[verifier::external_body]\n    pub fn from_str(s: &str) -> Result<Function, String> { unimplemented!() }\n',
     '__expr_clone': ('impl Clone for Expr {\n    #[verifier::external_body]\n'
@@ -41,7 +60,7 @@ SPECS = {
     'Expr::logical_op': dict(ret='r', ensures=['r == (Expr { left: Some(Box::new(left)), arithmetic_op: None, logical_op: Some(logical_op), op: None, right: Some(Box::new(right)), minus: false, field: None, function: None, args: None, val: None })']),
     'Expr::arithmetic_op': dict(ret='r', ensures=['r == (Expr { left: Some(Box::new(left)), arithmetic_op: Some(arithmetic_op), logical_op: None, op: None, right: Some(Box::new(right)), minus: false, field: None, function: None, args: None, val: None })']),
     'Op::negate': dict(ret='r', ensures=['r == spec_negate(op)']),
-    'Op::from_with_not': dict(ret='r'),
+    'Op::from_with_not': dict(ret='r', ensures=['r == spec_op_with_not(text@, not)']),
 
     # ---- cursor primitives ----
     'next_lexem': dict(ret='r', attrs=[NODEC],
@@ -65,7 +84,20 @@ SPECS = {
                           proofs={r'right\s*=\s*match\s+right\s*\{': 'let ghost verif_r = right; let ghost verif_e = expr;'},
                           proofs_after={r'right\s*=\s*match\s+right\s*\{':
                                         'proof { assert(/*C03.tree.and*/ right == (if verif_r is Some { Some(spec_logical_node(verif_r->Some_0, LogicalOp::And, verif_e->Some_0)) } else { verif_e })); }'}),
-    'parse_cond': parse_fn(loops={0: dict(invariant=LOOPINV)}),
+    # C03: `not not A` is A - the number of leading NOT tokens decides; `x OP y` builds the node (x, operator OP denotes, y) and
+    # `x not OP y` the node with the complement operator
+    'parse_cond': parse_fn(
+        loops={0: dict(invariant=LOOPINV + [
+            '/*C03.not.parity*/ negate == ((self.index - old(self).index) % 2 == 1)',
+            '/*C03.not.parity*/ lead_nots(self.lexems@, old(self).index as int) == (self.index - old(self).index) + lead_nots(self.lexems@, self.index as int)'],
+            ensures=['/*C03.not.parity*/ lead_nots(self.lexems@, self.index as int) == 0'])},
+        proofs={r'let\s+left\s*=\s*self\.parse_add_sub\(\)\?;':
+                    'proof { assert(/*C03.not.parity*/ negate == (lead_nots(self.lexems@, old(self).index as int) % 2 == 1)); }',
+                r'let\s+mut\s+result\s*=\s*match\s+lexem\s*\{': 'let ghost verif_left = left; let ghost verif_not = not; let ghost verif_lexem = lexem;'},
+        proofs_after={r'let\s+mut\s+result\s*=\s*match\s+lexem\s*\{':
+                    'proof { assert(/*C03.cond.operator*/ (verif_lexem is Some && verif_lexem->Some_0 is Operator && spec_lower(verif_lexem->Some_0->Operator_0@) != "between"@ && result is Ok && result->Ok_0 is Some) ==> '
+                    '({ let s = verif_lexem->Some_0->Operator_0; let e = result->Ok_0->Some_0; spec_op_with_not(s@, verif_not) is Some && verif_left is Some && e.op == spec_op_with_not(s@, verif_not) && e.left == Some(Box::new(verif_left->Some_0)) '
+                    '&& e.right is Some && e.logical_op is None && e.arithmetic_op is None })); }'}),
     'parse_add_sub': parse_fn(loops={0: dict(invariant=LOOPINV + ['left is Some'])},
                               proofs={r'left\s*=\s*match\s+left\s*\{': 'let ghost verif_l = left; let ghost verif_e = expr; let ghost verif_o = new_op;'},
                               proofs_after={r'left\s*=\s*match\s+left\s*\{':
@@ -104,7 +136,14 @@ SPECS = {
         '(match spec_parse::<u32>(lexem_text(lexem_at(*old(self), 1))->Some_0) { Some(n) => r == Ok::<u32, &str>(n), None => r is Err })',
         '/*C06.limit.parse*/ (lexem_at(*old(self), 0) is Some && lexem_at(*old(self), 0)->Some_0 is Limit && lexem_text(lexem_at(*old(self), 1)) is None) ==> r is Err',
     ]),
-    'parse_output_format': dict(ret='r', attrs=[NODEC], ensures=FRAME),
+    'parse_output_format': dict(ret='r', attrs=[NODEC], ensures=FRAME + [
+        # absent INTO: the default format, nothing consumed
+        '/*C10.format.parse*/ !(lexem_at(*old(self), 0) is Some && lexem_at(*old(self), 0)->Some_0 is Into) ==> r == Ok::<OutputFormat, &str>(OutputFormat::Tabs) && final(self).index == old(self).index',
+        # INTO word: the format the word denotes, or an error - never a silently substituted format
+        '/*C10.format.parse*/ (lexem_at(*old(self), 0) is Some && lexem_at(*old(self), 0)->Some_0 is Into && lexem_text(lexem_at(*old(self), 1)) is Some) ==> '
+        '(match spec_format_from(lexem_text(lexem_at(*old(self), 1))->Some_0) { Some(f) => r == Ok::<OutputFormat, &str>(f), None => r is Err })',
+        '/*C10.format.parse*/ (lexem_at(*old(self), 0) is Some && lexem_at(*old(self), 0)->Some_0 is Into && lexem_text(lexem_at(*old(self), 1)) is None) ==> r is Err',
+    ]),
     # select list and root options: panic freedom, cursor frame and termination only
     # root options (C11 / C01): an option list made of DOCUMENTED option words (docs/usage.md: mindepth N, maxdepth N / depth N,
     # symlinks / sym, archives / arc, gitignore / git, hgignore / hg, dockerignore / dock, no..ignore / nogit nohg nodock, bfs, dfs,
@@ -172,6 +211,44 @@ SPECS['negate_expr_op']['decreases'] = 'expr'
 
 EXTRA = '''
 pub uninterp spec fn spec_argless(f: Function) -> bool;
+pub uninterp spec fn spec_format_from(s: Seq<char>) -> Option<OutputFormat>;
+pub uninterp spec fn spec_op_from(s: Seq<char>) -> Option<Op>;
+pub open spec fn spec_op_with_not(s: Seq<char>, not: bool) -> Option<Op> {
+    match spec_op_from(s) { Some(op) => Some(if not { spec_negate(op) } else { op }), None => None }
+}
+// number of NOT tokens from position i on
+pub open spec fn lead_nots(ls: Seq<Lexem>, i: int) -> int
+    decreases ls.len() - i
+{
+    if 0 <= i < ls.len() && ls[i] is Not { 1 + lead_nots(ls, i + 1) } else { 0 }
+}
+pub uninterp spec fn spec_numeric_field(f: Field) -> bool;
+pub uninterp spec fn spec_datetime_field(f: Field) -> bool;
+pub uninterp spec fn spec_numeric_fn(f: Function) -> bool;
+pub uninterp spec fn spec_agg_fn(f: Function) -> bool;
+pub open spec fn spec_has_agg(e: Expr) -> bool
+    decreases e
+{
+    (e.left is Some && spec_has_agg(*e.left->Some_0))
+    || (e.right is Some && spec_has_agg(*e.right->Some_0))
+    || (e.function is Some && spec_agg_fn(e.function->Some_0))
+    || (e.args is Some && exists|i: int| 0 <= i < e.args->Some_0@.len() && spec_has_agg(#[trigger] e.args->Some_0@[i]))
+}
+pub open spec fn spec_contains_numeric(e: Expr) -> bool
+    decreases e
+{
+    (e.field is Some && spec_numeric_field(e.field->Some_0))
+    || (e.function is Some && spec_numeric_fn(e.function->Some_0))
+    || (e.left is Some && spec_contains_numeric(*e.left->Some_0))
+    || (e.right is Some && spec_contains_numeric(*e.right->Some_0))
+}
+// date keys: the column itself or the first operand chain (as implemented; C05 does not speak about date-valued expressions)
+pub open spec fn spec_contains_datetime(e: Expr) -> bool
+    decreases e
+{
+    (e.field is Some && spec_datetime_field(e.field->Some_0))
+    || (e.left is Some && spec_contains_datetime(*e.left->Some_0))
+}
 
 // ---- C11 / C01: the documented root options (docs/usage.md, table "Search roots") ------------------------------------
 ghost struct OptSt {
